@@ -157,6 +157,9 @@ func genDoc(rt *rapid.T, depth int, o docOpts) Node {
 	if depth <= 0 || rapid.IntRange(0, 9).Draw(rt, "leaf") < 2 {
 		return genScalar(rt, o)
 	}
+	if rapid.IntRange(0, 9).Draw(rt, "rows") == 0 {
+		return genRows(rt, func() Node { return genDoc(rt, depth-1, o) }, o.keys)
+	}
 	n := rapid.IntRange(0, 4).Draw(rt, "size")
 	if rapid.Bool().Draw(rt, "isarr") {
 		out := Node{T: "arr"}
@@ -177,6 +180,56 @@ func genDoc(rt *rapid.T, depth int, o docOpts) Node {
 		out.A = append(out.A, genDoc(rt, depth-1, o))
 	}
 	return out
+}
+
+// genRows builds an array of rows, each row an array with a string head: [["a",1],["b",[2]]]. As Lisp
+// data a row of two is the proper list ("a" 1), one cons cell away from the pair ("a" . 1) that stands
+// for a map entry, so everything that looks at the shape of lists must keep the two apart. Row
+// lengths 1-3 (mostly 2), sometimes one element that is no such row.
+func genRows(rt *rapid.T, elem func() Node, keys []string) Node {
+	out := Node{T: "arr"}
+	n := rapid.IntRange(1, 3).Draw(rt, "nrows")
+	rowLen := rapid.SampledFrom([]int{2, 2, 2, 2, 1, 3}).Draw(rt, "rowlen")
+	for i := 0; i < n; i++ {
+		row := Node{T: "arr", A: []Node{{T: "str", S: keys[rapid.IntRange(0, len(keys)-1).Draw(rt, "rowkey")]}}}
+		l := rowLen
+		if rapid.IntRange(0, 7).Draw(rt, "rowodd") == 0 {
+			l = rapid.IntRange(1, 3).Draw(rt, "rowlen2")
+		}
+		for len(row.A) < l {
+			row.A = append(row.A, elem())
+		}
+		out.A = append(out.A, row)
+	}
+	if rapid.IntRange(0, 5).Draw(rt, "stranger") == 0 {
+		at := rapid.IntRange(0, len(out.A)).Draw(rt, "stranger-at")
+		rest := append([]Node{elem()}, out.A[at:]...)
+		out.A = append(out.A[:at:at], rest...)
+	}
+	return out
+}
+
+// isRows: a non-empty array whose elements are all 2-element arrays with a string head.
+func isRows(n Node) bool {
+	if n.T != "arr" || len(n.A) == 0 {
+		return false
+	}
+	for _, r := range n.A {
+		if r.T != "arr" || len(r.A) != 2 || r.A[0].T != "str" {
+			return false
+		}
+	}
+	return true
+}
+
+func hasRows(n Node) bool {
+	found := false
+	n.Walk(func(x Node) {
+		if isRows(x) {
+			found = true
+		}
+	})
+	return found
 }
 
 // ---- classification ----
